@@ -12,6 +12,14 @@ FnV == [k |-> "fn"]
 Ints == IF Tier = "quick"
         THEN {IntV(i) : i \in {-7, -2, -1, 0, 1, 2, 3, 12}}
         ELSE {IntV(i) : i \in -9..9} \cup {IntV(1000), IntV(-1000), IntV(12), IntV(-13), IntV(255), IntV(-256), IntV(30000), IntV(-30000), IntV(1048576), IntV(-1048576)}
+T(str) == str      \* decimal texts are written as tuples of one-character strings
+BigInts == {BigV(<<"9", "2", "2", "3", "3", "7", "2", "0", "3", "6", "8", "5", "4", "7", "7", "5", "8", "0", "7">>),            \* 2^63 - 1
+            BigV(<<"-", "9", "2", "2", "3", "3", "7", "2", "0", "3", "6", "8", "5", "4", "7", "7", "5", "8", "0", "8">>),       \* -2^63
+            BigV(<<"-", "9", "2", "2", "3", "3", "7", "2", "0", "3", "6", "8", "5", "4", "7", "7", "5", "8", "0", "7">>),
+            BigV(<<"4", "6", "1", "1", "6", "8", "6", "0", "1", "8", "4", "2", "7", "3", "8", "7", "9", "0", "4">>),            \* 2^62
+            BigV(<<"2", "1", "4", "7", "4", "8", "3", "6", "4", "8">>), BigV(<<"-", "2", "1", "4", "7", "4", "8", "3", "6", "4", "9">>)} \cup
+           (IF Tier = "quick" THEN {} ELSE {BigV(<<"4", "2", "9", "4", "9", "6", "7", "2", "9", "6">>), BigV(<<"-", "4", "6", "1", "1", "6", "8", "6", "0", "1", "8", "4", "2", "7", "3", "8", "7", "9", "0", "5">>),
+                                            BigV(<<"9", "2", "2", "3", "3", "7", "2", "0", "3", "6", "8", "5", "4", "7", "7", "5", "8", "0", "6">>)})
 Floats == IF Tier = "quick"
           THEN {Fin(neg, n, e) : neg \in BOOLEAN, n \in {0, 1, 3}, e \in {0, 1}} \cup {NaN, Inf(TRUE), Inf(FALSE)}
           ELSE {Fin(neg, n, e) : neg \in BOOLEAN, n \in {0, 1, 3, 5, 12, 1001}, e \in {0, 1, 2, 3}} \cup {NaN, Inf(TRUE), Inf(FALSE)}
@@ -24,7 +32,7 @@ Arrs == IF Tier = "quick"
               ArrV(<<ArrV(<<IntV(2)>>), StrV(<<"a">>)>>), ArrV(<<ArrV(<<Fin(FALSE, 2, 0)>>), StrV(<<"a">>)>>), ArrV(<<ArrV(<<>>)>>),
               ArrV(<<FnV>>), ArrV(<<Nil>>), ArrV(<<IntV(1), Nil>>), ArrV(<<NaN>>), ArrV(<<BoolV(TRUE), BoolV(FALSE)>>),
               ArrV(<<IntV(1), IntV(2), IntV(3)>>), ArrV(<<IntV(3), IntV(2), IntV(1)>>), ArrV(<<StrV(<<"a">>), StrV(<<>>)>>)}
-Vals == Ints \cup Floats \cup Strs \cup Arrs \cup {Nil, FnV, BoolV(TRUE), BoolV(FALSE)}
+Vals == Ints \cup BigInts \cup Floats \cup Strs \cup Arrs \cup {Nil, FnV, BoolV(TRUE), BoolV(FALSE)}
 Nums == Ints \cup Floats
 Seqs == Strs \cup Arrs
 BinOps == {"+", "-", "*", "/", "%", "<", ">", "<=", ">=", "==", "!=", "&", "|", "<<", ">>"}
@@ -91,5 +99,11 @@ LawSlice == kind = "ix2" /\ ~done /\ a.k \in {"str", "arr"} /\ b.k = "int" /\ c.
     ELSE r = Err("index")
 LawIndex == kind = "ix1" /\ ~done /\ a.k \in {"str", "arr"} /\ b.k = "int" =>
     LET r == Index1(a, b) IN IF 0 <= b.v /\ b.v < Len(a.v) THEN ~IsErr(r) ELSE r = Err("index")
+\* order and equality of integers of any size: a strict total order, consistent under swapping the operands
+LawBigOrder == BinState /\ op = "<" /\ IntLike(a) /\ IntLike(b) /\ (a.k = "bigint" \/ b.k = "bigint") =>
+    LET lt == V(BinApply("<", a, b)) gt == V(BinApply(">", a, b)) le == V(BinApply("<=", a, b)) ge == V(BinApply(">=", a, b)) eq == V(BinApply("==", a, b)) ne == V(BinApply("!=", a, b)) IN
+    /\ lt = V(BinApply(">", b, a)) /\ le = V(BinApply(">=", b, a)) /\ le = (lt \/ eq) /\ ge = (gt \/ eq) /\ ne = ~eq
+    /\ (IF eq THEN ~lt /\ ~gt /\ a = b ELSE lt # gt)
+    /\ (a.k = "int" => lt = (b.txt[1] # "-")) /\ (b.k = "int" => lt = (a.txt[1] = "-"))       \* a big integer lies beyond every small one, on the side of its sign
 LawTotal == ~done => (LET r == Result IN IsErr(r) \/ "val" \in DOMAIN r)
 =============================================================================
